@@ -19,6 +19,7 @@
 //        pong ping empty crlf unk part  raw:<kind>:<len>[:<seed>]  hex:<bytes>
 //   close c=<k>   shutwr c=<k>   final   end
 #include <atomic>
+#include <cctype>
 #include <chrono>
 #include <cstdint>
 #include <functional>
@@ -58,10 +59,16 @@ namespace {
 
 constexpr int kMaxClients = 16;
 
-std::string hex_id(long long v) {
+// numeric id v is spelled as 64 hex digits whose last eight are 0a0b0000 + v, so that every id contains hex letters and an
+// upper-case (mode 1) or mixed-case (mode 2) spelling of the same peer id exists
+constexpr unsigned long long kIdBase = 0x0a0b0000ULL;
+std::string hex_id(long long v, int mode = 0) {
     char b[80];
-    std::snprintf(b, sizeof b, "%056d%08llx", 0, static_cast<unsigned long long>(v) & 0xffffffffULL);
-    return b;
+    std::snprintf(b, sizeof b, "%056d%08llx", 0, (static_cast<unsigned long long>(v) + kIdBase) & 0xffffffffULL);
+    std::string s = b;
+    if (mode == 1) for (auto& ch : s) ch = static_cast<char>(std::toupper(static_cast<unsigned char>(ch)));
+    if (mode == 2) { bool up = true; for (auto& ch : s) if (std::isalpha(static_cast<unsigned char>(ch))) { if (up) ch = static_cast<char>(std::toupper(static_cast<unsigned char>(ch))); up = !up; } }
+    return s;
 }
 std::string hex2(int v) { char b[8]; std::snprintf(b, sizeof b, "%02x", v & 0xff); return b; }
 std::string token_bytes(int c, int k) { return std::string("\x02T") + hex2(c) + hex2(k) + "\x03\n"; }
@@ -71,7 +78,7 @@ std::string identity_bytes(int c) {
     s.push_back('\x05');
     return s;  // 32 bytes, no newline
 }
-int hexval(char ch) { if (ch >= '0' && ch <= '9') return ch - '0'; if (ch >= 'a' && ch <= 'f') return ch - 'a' + 10; return -1; }
+int hexval(char ch) { if (ch >= '0' && ch <= '9') return ch - '0'; if (ch >= 'a' && ch <= 'f') return ch - 'a' + 10; if (ch >= 'A' && ch <= 'F') return ch - 'A' + 10; return -1; }
 
 // ---- lexer of what a client receives ----------------------------------------------------
 struct Lexer {
@@ -95,7 +102,7 @@ struct Lexer {
             if (h.size() == 64) {
                 bool ok = true; unsigned long long v = 0;
                 for (size_t i = 0; i < 64 && ok; ++i) { int d = hexval(h[i]); if (d < 0) ok = false; else if (i < 56) ok = (d == 0); else v = v * 16 + static_cast<unsigned>(d); }
-                if (ok && v < 0x7fffffffULL) id = static_cast<long long>(v);
+                if (ok && v >= kIdBase && v - kIdBase < 0x7fffffffULL) id = static_cast<long long>(v - kIdBase);
             }
             item("{\"k\":\"begin\",\"s\":" + std::to_string(id) + n);
         } else run += static_cast<long long>(l.size()) + 1;
@@ -364,10 +371,11 @@ bool build_parts(int c, const std::string& spec, std::string& bytes, std::string
         const std::string& k = a[0];
         std::string b, j;
         auto num = [&](size_t i) { return i < a.size() ? std::atoll(a[i].c_str()) : 0LL; };
-        if (k == "reg" || k == "regcr") { b = "REGISTER " + hex_id(num(1)) + (k == "regcr" ? "\r\n" : "\n"); j = "\"k\":\"reg\",\"i\":" + std::to_string(num(1)); }
+        if (k == "reg" || k == "regcr" || k == "regU" || k == "regM") { b = "REGISTER " + hex_id(num(1), k == "regU" ? 1 : k == "regM" ? 2 : 0) + (k == "regcr" ? "\r\n" : "\n"); j = "\"k\":\"reg\",\"i\":" + std::to_string(num(1)); }
         else if (k == "regbad") { b = "REGISTER zz\n"; j = "\"k\":\"misc\""; }
-        else if (k == "con" || k == "concr") {
-            b = "CONNECT " + hex_id(num(1)) + " " + hex_id(num(2)) + (k == "concr" ? "\r\n" : "\n");
+        else if (k == "con" || k == "concr" || k == "conU" || k == "conM") {
+            // conU / conM: the same target peer id spelled in upper / mixed case
+            b = "CONNECT " + hex_id(num(1)) + " " + hex_id(num(2), k == "conU" ? 1 : k == "conM" ? 2 : 0) + (k == "concr" ? "\r\n" : "\n");
             j = "\"k\":\"con\",\"s\":" + std::to_string(num(1)) + ",\"t\":" + std::to_string(num(2));
         }
         else if (k == "id") { const auto idb = identity_bytes(c); long long f = num(1), t = num(2); if (f < 0) f = 0; if (t > 32) t = 32; if (t < f) t = f; b = idb.substr(static_cast<size_t>(f), static_cast<size_t>(t - f)); j = "\"k\":\"id\""; }
